@@ -120,6 +120,10 @@ def run(ck):
             mat = None
         elif tk == 'diag':
             mat = np.abs(rng.standard_normal(d)) + 0.1
+            if d >= 2 and (i // 3) % 2 == 0:
+                mat[(i // 6) % d] = 0.0          # exact zeros on the diagonal (features the model ignores)
+                if d >= 4:
+                    mat[(i // 6 + 2) % d] = 0.0
         else:
             A = rng.standard_normal((d, d)) / math.sqrt(d)
             if kn != 'l2_light' and (i // 3) % 2 == 1:
@@ -201,7 +205,7 @@ def run(ck):
         for p_ in probs:
             ck.violation(p_ + f' on {desc}', dict(desc, problem=p_), key=json.dumps(dict(site='structure', what=p_[:20], kernel=kn)))
         # (a) interval-certified entries against the Coq op-sequence model (low dimension, generic position)
-        if (d <= 2 or (d <= 3 and tk != 'full')) and (i % 6 != 0) and (i % 7 != 0):
+        if (d <= 2 or (d <= 3 and tk != 'full')) and (i % 6 != 0) and (i % 7 != 0) and not (tk == 'diag' and bool(np.any(np.asarray(mat) == 0))):      # `interval` cannot certify |0|^q terms
             for (a, b) in [(0, 0), (nx - 1, nz - 1)][: (2 if ck.tier == 'thorough' else 1)]:
                 if np.any(np.abs(Xe[a] - Ze[b]) < 1e-9):
                     continue
